@@ -6,6 +6,9 @@
 (*              background (0: not a palette colour), code = id of the code text shown,    *)
 (*              num = line number shown (0 blank), commit/author/time = which key's        *)
 (*              metadata text the row shows (0 = blank)                                    *)
+(*   gs[i]    TRUE iff input line i arrived in a colour of git's own (blame.coloring): delta  *)
+(*            keeps that colour for the metadata, so the row's background is not from the     *)
+(*            palette and the colour laws speak about its neighbours only                     *)
 EXTENDS Blame, TLC, Json, IOUtils
 
 Rec == ndJsonDeserialize(IOEnv.TRACE)
@@ -23,14 +26,15 @@ Why(e) ==
        THEN "wrong-attribution"
   ELSE IF \E i \in 1..n : (i = 1 \/ e.ks[i] # e.ks[i - 1]) /\
                             (e.rows[i].commit = 0 \/ e.rows[i].author = 0 \/ e.rows[i].time = 0) THEN "metadata-missing"
-  ELSE IF \E i \in 1..n : cs[i] = 0 THEN "colour-not-from-palette"
+  ELSE IF \E i \in 1..n : ~e.gs[i] /\ cs[i] = 0 THEN "colour-not-from-palette"
+  ELSE IF \E i \in 1..n : e.gs[i] THEN (IF LawsG(e.ks, e.gs, cs) THEN "" ELSE "colour-law-between-neighbours")
   ELSE IF ~SameKeySameColour(e.ks, cs) THEN "same-key-different-colour"
   ELSE IF ~ChangeChangesColour(e.ks, cs) THEN "colour-collision"
   ELSE IF ~ColourSticky(e.ks, cs) THEN "colour-not-sticky"
   ELSE ""
 
 Drifts(e) == e.code = 0 /\ Len(e.rows) = Len(e.ks) /\
-             [i \in DOMAIN e.rows |-> e.rows[i].c] # Colours(e.NK, e.P, e.ks)
+             LET m == ColoursG(e.NK, e.P, e.ks, e.gs, TRUE) IN \E i \in DOMAIN e.rows : ~e.gs[i] /\ e.rows[i].c # m[i]
 
 Init == l = 1 /\ failed = <<>> /\ drift = <<>>
 Next == /\ l <= Len(Rec)
